@@ -17,6 +17,14 @@ func init() {
 }
 
 func runC10(c *Ctx) {
+	defer checkParseSignatureFirst(c, "C10.R15")
+	defer checkJWKSCacheKey(c, "C10.R14")
+	defer checkCredentialsFromBody(c, "C10.R13")
+	defer checkVerifyAud(c, "C10.R12")
+	defer checkClientGetters(c, "C10.R11", clientGetter{"DefaultClient", "GetHashedSecret", "Secret", ""}, clientGetter{"DefaultClient", "GetRotatedHashes", "RotatedSecrets", ""}, clientGetter{"DefaultClient", "GetID", "ID", ""}, clientGetter{"DefaultOpenIDConnectClient", "GetTokenEndpointAuthMethod", "TokenEndpointAuthMethod", ""}, clientGetter{"DefaultOpenIDConnectClient", "GetTokenEndpointAuthSigningAlgorithm", "TokenEndpointAuthSigningAlgorithm", "RS256"}, clientGetter{"DefaultOpenIDConnectClient", "GetJSONWebKeys", "JSONWebKeys", ""}, clientGetter{"DefaultOpenIDConnectClient", "GetJSONWebKeysURI", "JSONWebKeysURI", ""})
+	defer checkStoreKeyed(c, "C10.R10", storeRow{meth: "GetClient", table: "Clients", op: "get", key: 2})
+	defer checkRevocationWriter(c, "C10.R9")
+	defer checkErrorsIsOperands(c, "C10.R8")
 	defer checkIsPublic(c, "C10.R7")
 	defer checkConfigGetters(c, "C10.R6", "GetGrantTypeJWTBearerCanSkipClientAuth", "GetClientAuthenticationStrategy", "GetSecretsHasher")
 	c10R1(c)
